@@ -319,7 +319,7 @@ Section Api.
     end.
 
   (* ---------- messages ---------- *)
-  Definition ps_pipe_cap : nat := N.to_nat cPIPE_CAP_MSGS.
+  Definition ps_pipe_cap : nat := match sc_pipecap sc with O => N.to_nat cPIPE_CAP_MSGS | n => n end.
 
   (* tell_if: the recipient gets a copy if RUNNING|PAUSED (and, for publish, subscribed) *)
   Definition tell_copy (w : world) (r : modid) (send : nat) (system : bool) (sender : option modid)
